@@ -1,19 +1,32 @@
 _PREFIXES = '{"ollama", "lmstudio", "lm-studio", "vllm", "sglang", "llamacpp", "lemonade", "litellm", "openai", "openai-compatible", "dmr", "vllm-mlx"}'
-_TYPES = '{"ollama", "vllm", "sglang", "lm-studio", "llamacpp", "openai-compatible", "auto"}'
+_TYPES = '{"ollama", "vllm", "vllm-mlx", "sglang", "lm-studio", "llamacpp", "lemonade", "litellm", "docker-model-runner", "openai-compatible", "auto"}'
+
+
+def _pg(ep, prefixes, types, **kw):
+    p = {"EP": ep, "Prefixes": prefixes, "Types": types, "Focus": "FALSE"}
+    p.update(kw)
+    return {"module": "Provider", "cfg": "Provider_gen.cfg", "params": p}
+
+
+# every (prefix, endpoint type) pair on its own -- names that are prefixes of one another (vllm / vllm-mlx,
+# openai / openai-compatible, lmstudio / lm-studio) must not be confused; never sampled away
+_PAIRS = dict(_pg('{"e1"}', _PREFIXES, _TYPES), always=True)
+# two endpoints of one kind and one of another, all healthy, one refusing the connection: the failover must stay
+# inside the provider
+_FOCUS = dict(_pg('{"e1", "e2", "e3"}', '{"ollama", "vllm"}', '{"ollama", "vllm", "lm-studio"}', Focus="TRUE"), always=True)
 
 
 def register(PROPS, HARNESS_PKGS):
     part = {
         "name": "provider",
         "mc": [{"module": "Provider", "cfg": "Provider_mc.cfg"}],
-        "quick": {"gen": [{"module": "Provider", "cfg": "Provider_gen.cfg",
-                           "params": {"EP": '{"e1", "e2"}', "Prefixes": _PREFIXES, "Types": _TYPES}}], "sample": 500},
-        "thorough": {"gen": [{"module": "Provider", "cfg": "Provider_gen.cfg",
-                              "params": {"EP": '{"e1", "e2", "e3"}', "Prefixes": _PREFIXES, "Types": _TYPES}}], "sample": 5000},
+        "quick": {"gen": [_pg('{"e1", "e2"}', _PREFIXES, _TYPES), _PAIRS, _FOCUS], "sample": 400},
+        "thorough": {"gen": [_pg('{"e1", "e2", "e3"}', _PREFIXES, _TYPES), _PAIRS, _FOCUS,
+                             _pg('{"e1", "e2", "e3"}', _PREFIXES, _TYPES, Focus="TRUE")], "sample": 5000},
         "pkg": "internal/app", "test": "TestVerif_Provider",
         "harness_files": ["stack_test.go", "dispatch_test.go", "routing_test.go", "provider_test.go"],
         "trace": {"module": "ProviderTrace", "cfg": "Provider_trace.cfg"},
-        "nontrivial": lambda s: len(set(s["types"].values())) > 1 or len(s["H"]) < len(s["types"]),
+        "nontrivial": lambda s: len(set(s["types"].values())) > 1 or len(s["H"]) < len(s["types"]) or bool(s.get("refuse")),
     }
     PROPS["C11"] = {
         "rule": "TLC enumerates provider prefix (every prefix the shipped profiles declare) x endpoint-type mix x healthy "
